@@ -13,8 +13,8 @@
 EXTENDS Integers, Sequences, TLC, TraceIO
 
 CONSTANT MaxCh
-VARIABLES cur, l, ch
-tvars == <<cur, l, ch>>
+VARIABLES cur, l, ch, nd
+tvars == <<cur, l, ch, nd>>
 Chans == 1..MaxCh
 
 Line == Trace[l]
@@ -27,7 +27,7 @@ TInit ==
     \E t \in 1..NT :
        /\ cur = t /\ l = Meta.starts[t] + 1
        /\ Trace[Meta.starts[t]].e = "hdr"
-       /\ ch = [c \in Chans |-> Ch0]
+       /\ ch = [c \in Chans |-> Ch0] /\ nd = {}
 
 InC(c) == c \in Chans
 TWCall == /\ Line.e = "w_call" /\ InC(Line.c) /\ ch[Line.c].pend < 0 /\ Line.n >= 0
@@ -63,13 +63,25 @@ TSeal == /\ Line.e = "seal" /\ InC(Line.c)
 FinalOK == /\ Line.pending = 0
            /\ \A c \in Chans : c <= Trace[Meta.starts[cur]].nch =>
                  (ch[c].cl >= 0 /\ ch[c].eof /\ ch[c].rd = ch[c].wr /\ ch[c].pend < 0 /\ ~ch[c].cp)
-TFinal == Line.e = "final" /\ FinalOK = TRUE /\ UNCHANGED ch
+(* Known finding F15 (named deviation, reported through NoNewDeviation): both conns are in the   *)
+(* middle of a 1-RTT key update and one of them can no longer authenticate the other's packets    *)
+(* (white box: keys[i] = <<updating, authentication failures>>): nothing can ever be delivered.   *)
+KeyUpdateDeadlock ==
+    /\ Len(Line.keys) = 2
+    /\ Line.keys[1][1] = 1 /\ Line.keys[2][1] = 1
+    /\ (Line.keys[1][2] > 0 \/ Line.keys[2][2] > 0)
+TFinal == /\ Line.e = "final"
+          /\ IF FinalOK THEN nd' = {}
+             ELSE KeyUpdateDeadlock /\ nd' = {"KeyUpdateDeadlock"}
+          /\ UNCHANGED ch
 
 TNext ==
     /\ l <= Meta.ends[cur]
     /\ l' = l + 1 /\ cur' = cur
-    /\ (TWCall \/ TWRet \/ TWFlush \/ TWCW \/ TWCCall \/ TWCRet \/ TRead \/ TSeal \/ TFinal)
+    /\ \/ (TWCall \/ TWRet \/ TWFlush \/ TWCW \/ TWCCall \/ TWCRet \/ TRead \/ TSeal) /\ nd' = {}
+       \/ TFinal
 
 TSpec == TInit /\ [][TNext]_tvars
 Mark == HighWater(cur, l)
+NoNewDeviation == nd = {}
 =============================================================================
